@@ -17,11 +17,12 @@ type node struct {
 	kind     string // lit any arr obj
 	lit      string // i f s b n
 	nullable bool
+	nulFalse bool // `nullable: false` written out (inert)
 	items    []*node
 	props    []*prop
 }
 type prop struct {
-	key  string
+	key  int // index into keyPool
 	mark int // 0 unmarked, 1 optional:true, 2 optional:false
 	val  *node
 }
@@ -29,10 +30,51 @@ type doc struct {
 	kind  string // l a o
 	lit   string
 	items []*doc
-	keys  []string
+	keys  []int
 }
 
 var kinds = []string{"i", "f", "s", "b", "n"}
+
+// decoded key names: the Lean side sees the atom k<index>; the texts spell the name with a random mix of raw bytes,
+// short escapes and \uXXXX escapes (the property: keys are compared after decoding)
+var keyPool = []string{"a", "b", "c", "d", "zz", "a\"b", "a\\b", "line\nbreak", "tab\t", "\u00e9t\u00e9", "sl/ash", " ", "A", "\U0001F600k", "a\u0001"}
+
+func keyAtom(i int) string { return fmt.Sprintf("k%d", i) }
+
+// spell a decoded name as a JSON string literal
+func spell(name string, r *rand.Rand) string {
+	var sb strings.Builder
+	sb.WriteByte('"')
+	mode := r.Intn(4) // 0: minimal escapes, 1: everything as \u, 2/3: mixed
+	for _, c := range name {
+		esc := mode == 1 || (mode >= 2 && r.Intn(3) == 0)
+		switch {
+		case c == '"' && !esc:
+			sb.WriteString("\\\"")
+		case c == '\\' && !esc:
+			sb.WriteString("\\\\")
+		case c == '\n' && !esc:
+			sb.WriteString("\\n")
+		case c == '\t' && !esc:
+			sb.WriteString("\\t")
+		case c == '/' && !esc && mode == 2:
+			sb.WriteString("\\/")
+		case c < 0x20 || esc:
+			if c > 0xffff {
+				c -= 0x10000
+				fmt.Fprintf(&sb, "\\u%04x\\u%04X", 0xd800+(c>>10), 0xdc00+(c&0x3ff))
+			} else if r.Intn(2) == 0 {
+				fmt.Fprintf(&sb, "\\u%04x", c)
+			} else {
+				fmt.Fprintf(&sb, "\\u%04X", c)
+			}
+		default:
+			sb.WriteRune(c)
+		}
+	}
+	sb.WriteByte('"')
+	return sb.String()
+}
 
 func genNode(r *rand.Rand, depth int) *node {
 	k := r.Intn(20)
@@ -41,20 +83,28 @@ func genNode(r *rand.Rand, depth int) *node {
 	}
 	switch {
 	case k <= 6:
-		return &node{kind: "lit", lit: kinds[r.Intn(5)], nullable: r.Intn(4) == 0}
+		n := &node{kind: "lit", lit: kinds[r.Intn(5)], nullable: r.Intn(4) == 0}
+		n.nulFalse = !n.nullable && r.Intn(5) == 0
+		return n
 	case k <= 8:
-		return &node{kind: "any"}
+		return &node{kind: "any", nullable: r.Intn(3) == 0}
 	case k <= 13:
 		n := &node{kind: "arr", nullable: r.Intn(5) == 0}
+		n.nulFalse = !n.nullable && r.Intn(6) == 0
 		for i := r.Intn(4); i > 0; i-- {
 			n.items = append(n.items, genNode(r, depth-1))
 		}
 		return n
 	default:
 		n := &node{kind: "obj", nullable: r.Intn(5) == 0}
+		n.nulFalse = !n.nullable && r.Intn(6) == 0
 		cnt := r.Intn(4)
+		perm := r.Perm(len(keyPool))
+		if r.Intn(2) == 0 { // plain names most of the time
+			perm = r.Perm(4)
+		}
 		for i := 0; i < cnt; i++ {
-			n.props = append(n.props, &prop{key: string(rune('a' + i)), mark: r.Intn(3), val: genNode(r, depth-1)})
+			n.props = append(n.props, &prop{key: perm[i], mark: r.Intn(3), val: genNode(r, depth-1)})
 		}
 		return n
 	}
@@ -75,7 +125,7 @@ func litTok(k string, r *rand.Rand) string {
 }
 
 // rules of a node as annotation text ("" if none)
-func rules(n *node, mark int) string {
+func rules(n *node, mark int, r *rand.Rand) string {
 	var rs []string
 	if mark == 1 {
 		rs = append(rs, "optional: true")
@@ -87,10 +137,13 @@ func rules(n *node, mark int) string {
 	}
 	if n.nullable {
 		rs = append(rs, "nullable: true")
+	} else if n.nulFalse {
+		rs = append(rs, "nullable: false")
 	}
 	if len(rs) == 0 {
 		return ""
 	}
+	r.Shuffle(len(rs), func(i, j int) { rs[i], rs[j] = rs[j], rs[i] })
 	return " // {" + strings.Join(rs, ", ") + "}"
 }
 
@@ -98,15 +151,15 @@ func rules(n *node, mark int) string {
 func print(sb *strings.Builder, n *node, mark int, ind string, comma string, r *rand.Rand) {
 	switch n.kind {
 	case "lit":
-		sb.WriteString(litTok(n.lit, r) + comma + rules(n, mark))
+		sb.WriteString(litTok(n.lit, r) + comma + rules(n, mark, r))
 	case "any":
-		sb.WriteString([]string{"1", `"z"`, "null", "true"}[r.Intn(4)] + comma + rules(n, mark))
+		sb.WriteString([]string{"1", `"z"`, "null", "true", "{}", "[]", "1.5", "[ ]", "{ }"}[r.Intn(9)] + comma + rules(n, mark, r))
 	case "arr":
 		if len(n.items) == 0 {
-			sb.WriteString("[]" + comma + rules(n, mark))
+			sb.WriteString("[]" + comma + rules(n, mark, r))
 			return
 		}
-		sb.WriteString("[" + rules(n, mark) + "\n")
+		sb.WriteString("[" + rules(n, mark, r) + "\n")
 		for i, it := range n.items {
 			sb.WriteString(ind + "  ")
 			c := ","
@@ -119,12 +172,12 @@ func print(sb *strings.Builder, n *node, mark int, ind string, comma string, r *
 		sb.WriteString(ind + "]" + comma)
 	case "obj":
 		if len(n.props) == 0 {
-			sb.WriteString("{}" + comma + rules(n, mark))
+			sb.WriteString("{}" + comma + rules(n, mark, r))
 			return
 		}
-		sb.WriteString("{" + rules(n, mark) + "\n")
+		sb.WriteString("{" + rules(n, mark, r) + "\n")
 		for i, p := range n.props {
-			sb.WriteString(ind + "  \"" + p.key + "\": ")
+			sb.WriteString(ind + "  " + spell(keyPool[p.key], r) + ": ")
 			c := ","
 			if i == len(n.props)-1 {
 				c = ""
@@ -163,7 +216,7 @@ func sx(n *node, optDefault bool) string {
 			if p.mark == 1 || (p.mark == 0 && optDefault) {
 				req = "0"
 			}
-			sb.WriteString(" (P " + p.key + " " + req + " " + sx(p.val, optDefault) + ")")
+			sb.WriteString(" (P " + keyAtom(p.key) + " " + req + " " + sx(p.val, optDefault) + ")")
 		}
 		sb.WriteString(")")
 		body = sb.String()
@@ -223,7 +276,7 @@ func sample(r *rand.Rand, n *node, optDefault bool, mut int) *doc {
 			}
 		}
 		if mut > 0 && r.Intn(100) < mut/2 { // add a key
-			d.keys = append(d.keys, []string{"zz", "a", "d"}[r.Intn(3)])
+			d.keys = append(d.keys, r.Intn(len(keyPool)))
 			d.items = append(d.items, randomDoc(r, 1))
 		}
 		r.Shuffle(len(d.keys), func(i, j int) {
@@ -251,7 +304,7 @@ func randomDoc(r *rand.Rand, depth int) *doc {
 	default:
 		d := &doc{kind: "o"}
 		for i := r.Intn(3); i > 0; i-- {
-			d.keys = append(d.keys, string(rune('a'+r.Intn(4))))
+			d.keys = append(d.keys, r.Intn(5))
 			d.items = append(d.items, randomDoc(r, depth-1))
 		}
 		return d
@@ -271,7 +324,7 @@ func docText(d *doc, r *rand.Rand) string {
 	default:
 		parts := make([]string, len(d.items))
 		for i, it := range d.items {
-			parts[i] = `"` + d.keys[i] + `": ` + docText(it, r)
+			parts[i] = spell(keyPool[d.keys[i]], r) + `: ` + docText(it, r)
 		}
 		return "{" + strings.Join(parts, ",") + "}"
 	}
@@ -292,7 +345,7 @@ func docSx(d *doc) string {
 		var sb strings.Builder
 		sb.WriteString("(o")
 		for i, it := range d.items {
-			sb.WriteString(" (m " + d.keys[i] + " " + docSx(it) + ")")
+			sb.WriteString(" (m " + keyAtom(d.keys[i]) + " " + docSx(it) + ")")
 		}
 		return sb.String() + ")"
 	}
@@ -314,9 +367,9 @@ func depthOf(n *node) int {
 }
 
 func Run(args []string) {
-	rep := vh.NewReport("c01-shape", "schemas of the rule-free fragment (scalars of 5 kinds, type any, arrays <=3, objects <=3 props with unmarked / optional:true / optional:false keys, nullable on scalars and containers, depth <= 5) x KeysAreOptionalByDefault on/off x documents (sampled inhabitants incl. int-for-float, null for nullable, extended arrays; mutated: dropped / added / repeated / reordered keys, kind swaps; unrelated); real Validate verdict vs Lean VN.validateT, VN.validate and spec VN.shape; nontrivial = schema of depth >= 2")
+	rep := vh.NewReport("c01-shape", "schemas of the rule-free fragment (scalars of 5 kinds, type any, arrays <=3, objects <=3 props with unmarked / optional:true / optional:false keys, nullable on scalars, containers and type-any nodes (also written out as nullable: false), type any over scalar and empty-container examples, rules in random order, key names from a pool of 15 decoded names incl. quotes, backslashes, control characters, non-ASCII and astral characters spelled in schema and document with random raw / short / \\uXXXX escapes, depth <= 5) x KeysAreOptionalByDefault on/off x documents (sampled inhabitants incl. int-for-float, null for nullable, extended arrays; mutated: dropped / added / repeated / reordered keys, kind swaps; unrelated); real Validate verdict vs Lean VN.validateT, VN.validate and spec VN.shape; nontrivial = schema of depth >= 2")
 	r := vh.NewRand(101)
-	nSchemas := vh.Pick(2500, 60000)
+	nSchemas := vh.Pick(12000, 120000)
 	var reqs, impl, inputs []string
 	for i := 0; i < nSchemas; i++ {
 		n := genNode(r, 1+r.Intn(5))
